@@ -25,12 +25,26 @@ def main(argv):
         return 3
     from .common import Report
 
+    cov = None
+    if os.environ.get("VF_COVER"):
+        # development aid (tools/cover.sh): which lines of the repository the workload reaches
+        import coverage
+
+        cov = coverage.Coverage(
+            data_file=os.path.join(os.environ["VF_COVER"], f".coverage.{pid}.{shard}"),
+            include=[repo + "/cotengra/*"],
+        )
+        cov.start()
     mod = importlib.import_module(f"vf.checks.{pid.lower()}")
     rep = Report(pid, tier, seed, shard)
     try:
         mod.run_shard(rep, tier, seed, shard, nshards)
     except Exception:
         rep.inconclusive_case("shard crashed: " + traceback.format_exc()[-1500:])
+    finally:
+        if cov is not None:
+            cov.stop()
+            cov.save()
     with open(out, "w") as f:
         json.dump(rep.to_json(), f)
     return 0
